@@ -146,6 +146,33 @@ def isolation_program(rng, lsb0=False):
     return {'calls': calls}
 
 
+def derive_then_mutate_program(rng, lsb0=False):
+    """Systematic variant: one source object; repeatedly derive an object from it by a random route and, when the
+    result is mutable, change it in place at once - every event re-checks the source and every earlier result."""
+    pool = pool_literals(rng)
+    calls = []
+    if lsb0:
+        calls.append(_d.setopt('lsb0', 1))
+    scls = rng.choice(['Bits', 'ConstBitStream', 'Bits', 'BitArray', 'BitStream'])
+    bits = _d.rand_bits(rng, rng.choice([1, 4, 8, 8, 16, 24, 3]))
+    calls.append(_d.mk('s', scls, bits, rng.choice(['bin', 'auto_bin', 'auto_hex', 'bools', 'bytes_len', 'slice']), NONE_I))
+    for k in range(rng.randint(4, 8)):
+        c, cls = derive_call(rng, 's', scls, 'd%d' % k, pool)      # (ids are never reused: a cut returns several objects)
+        calls.append(c)
+        if cls in _d.MUTABLE:
+            t = c['rid']
+            calls.append(rng.choice([
+                {'op': 'invert', 't': t, 'sa': ['none'], 'ia': []},
+                {'op': 'set', 't': t, 'sa': ['none'], 'ia': [rng.randint(0, 1)]},
+                {'op': 'append', 't': t, 'xs': [_d.lit('bin', [1, 0, 1])]},
+                {'op': 'reverse', 't': t, 'ia': [NONE_I, NONE_I]},
+                {'op': 'delslice', 't': t, 'ia': [NONE_I, 1, NONE_I]},
+                {'op': 'setslice', 't': t, 'ia': [NONE_I, NONE_I, NONE_I], 'xs': [_d.lit('bin', [1])]},
+                {'op': 'clear', 't': t},
+            ]))
+    return {'calls': calls}
+
+
 # ---------------------------------------------------------------------------
 # C09: call histories over more than 256 distinct cache keys, option changes in between, earlier results
 # mutated or derived from; every call is judged by the (history-free) Step function of the specification.
@@ -204,9 +231,15 @@ def history_program(rng, length=420, nkeys=330):
             n1, n2 = 1 + i % 37, 1 + (i // 37) % 9
             toks = [tok('uint', n1), tok('int', n2 + 1)] + ([tok('hex', 4 * (1 + i % 3))] if i % 4 == 0 else [])
             vals = [enc_int((i * 7) % (1 << n1)), enc_int(-1)] + ([[4] + [i % 16] * (1 + i % 3)] if i % 4 == 0 else [])
-            style = [0, 8, 64, 2, 16][i % 5]
+            style = [0, 8, 64, 2, 16, 1, 9][(i + step) % 7]
             calls.append({'op': 'pack', 'rid': 'p', 'tk': toks, 'va': vals, 'ia': [style]})
-            calls.append({'op': rng.choice(['unpack', 'unpack', 'readlist']), 't': 'p', 'tk': read_tokens(toks), 'ia': [style & ~4]})
+            calls.append({'op': rng.choice(['unpack', 'unpack', 'readlist']), 't': 'p', 'tk': read_tokens(toks), 'ia': [style & ~5]})
+            if style & 1:
+                # the list-of-strings spelling: its first string is then used as a format on its own (and again)
+                half = len(toks) // 2
+                for _ in range(rng.randint(1, 2)):
+                    calls.append({'op': 'pack', 'rid': 'p', 'tk': toks[:half], 'va': vals[:half], 'ia': [style & ~1]})
+                calls.append({'op': 'unpack', 't': 'p', 'tk': read_tokens(toks[:half]), 'ia': [style & ~5]})
         elif r < 0.74:
             # Dtype creation through names (Dtype._new_from_token / _create caches)
             name = rng.choice(['uint', 'int', 'hex', 'bin', 'float'])
